@@ -69,6 +69,8 @@ class Sched:
         self.labels = []
         self.deadlocked = False
         self.preempt_landed = []   # (n, label) of preemptions that actually switched
+        self._results = []
+        self._threads = []
 
     # ---- helpers (call with cv held)
     def _me(self):
@@ -128,13 +130,54 @@ class Sched:
                 if l is lock:
                     del self.blocked[t]
 
+    # ---- dynamically spawned managed thread (C17: a straggler started by a running task)
+    def spawn(self, fn):
+        """Start fn in a new managed thread from inside a managed thread; run_all waits for it too."""
+        idx = len(self._results)
+        self._results.append(None)
+        me = 't%d' % idx
+
+        def runner():
+            with self.cv:
+                self._wait_turn(me)
+            if self.policy.lines:
+                sys.settrace(_line_tracer)
+            try:
+                self._results[idx] = ('ok', fn())
+            except BaseException as e:        # noqa: B902
+                self._results[idx] = ('exc', e)
+            finally:
+                sys.settrace(None)
+                self._finish(me)
+        th = threading.Thread(target=runner, name='fbv-task-%d' % idx, daemon=True)
+        with self.cv:
+            self.state[me] = 'run'
+        th.start()
+        self.names[th.ident] = me
+        self._threads.append(th)
+        return idx
+
+    def _finish(self, me):
+        with self.cv:
+            self.state[me] = 'done'
+            self.blocked.pop(me, None)
+            r = self._runnable()
+            if r:
+                self.cur = r[0]
+            elif self.blocked:
+                self.deadlocked = True
+                self.cur = None
+            else:
+                self.cur = None
+            self.cv.notify_all()
+
     # ---- running tasks
     def run_all(self, tasks):
         """tasks: list of callables; returns list of ('ok', value) | ('exc', exception).  The calling
         (unmanaged) thread waits until every task is done."""
         global ACTIVE
-        results = [None] * len(tasks)
-        threads = []
+        results = self._results = [None] * len(tasks)
+        threads = self._threads = []
 
         def runner(i, fn):
             me = 't%d' % i
@@ -176,7 +219,10 @@ class Sched:
                 order = sorted(self.state)
                 self.cur = order[self.policy.first % len(order)]
                 self.cv.notify_all()
-            for th in threads:
+            k = 0
+            while k < len(threads):          # the list grows when a task spawns a straggler
+                th = threads[k]
+                k += 1
                 th.join(WAIT_S * 2)
                 if th.is_alive():
                     with self.cv:
